@@ -2,7 +2,7 @@ CONSTANTS HW = 6
           Margin = 9
           Marks = {0, 1, 28800, 46800, 61200, 81000, 86399}
           WeekendNos = {1, 2, 3, 4}
-          OwnAdjs = {"m", "p", "f"}
+          OwnAdjs = {"m", "f"}
           TPad = 2
           GenMod = 1
 INIT Init
